@@ -111,6 +111,8 @@ prop(
         dict(engine="treapmon", profile="release", args=["--mode", "seq-exhaustive"], group="exhaustive"),
         dict(engine="treapmon", profile="dev", args=["--mode", "seq", "--cases", "40000"], group="random",
              label="treapmon/dev/seq (overflow checks on)"),
+        dict(engine="treapmon", profile="release", args=["--mode", "seq-deep"], group="deep",
+             label="treapmon/release/seq-deep (path-shaped treaps 2100..3400 nodes deep, every recursion thousands of levels)"),
     ],
     floor=dict(quick=500_000, thorough=10_000_000),
     counter_floors=dict(quick=dict(walk_checks=10_000_000, lazy_attachments=1_000_000, api_results_checked=5_000_000),
